@@ -234,7 +234,7 @@ def gen_case(rng, kind):
     if kind == 'numbers':
         writes = []
         for _ in range(rng.randint(1, 8)):
-            k = rng.choice([0, 1, 2, 3, 4, 7, 8, 9, 16, 31, 32, 33, 64, 70])
+            k = rng.choice([0, 1, 2, 3, 4, 7, 8, 9, 16, 31, 32, 33, 64, 70, 56, 57, 58, 60, 63, 65, 127, 128, 129])   # word-size thresholds of a windowed reader
             r = rng.random()
             if r < 0.6:
                 x = rng.randrange(1 << k) if k else 0
